@@ -73,6 +73,10 @@ def props_of(rep, rec=None):
         out |= {"C10"}
     elif tag.startswith("walk.") or tag.startswith("page."):
         out |= {"C06"}
+    elif tag.startswith("ingest."):
+        out |= {"C08", "C03"}
+    elif tag.startswith("finality."):
+        out |= {"C03"}
     elif tag == "trap":
         out |= set(CANISTER_PROPS)
     else:
@@ -89,4 +93,5 @@ KF_PROPERTY = {
     "KF_PausedUtxosLength": "C08",
     "KF_UpgradeUtxosLength": "C09",
     "KF_ThresholdRaiseWhilePaused": "C03",
+    "KF_TieDepthEscape": "C03",
 }
